@@ -236,10 +236,14 @@ struct Value {
             s << int64;
             break;
         case T_DATA:
-            if (data.size() < 5) {
-                // we need to push this as a number
-                int64_t i = int_value();
-                s << i;
+            // push exactly these bytes in minimal form: the single bytes 01..10 and 81 have dedicated opcodes
+            // (re-reading short data as a number changed non-minimal encodings: 0x00 -> OP_0, 0x0100 -> OP_1, 0x80 -> OP_0)
+            if (data.size() == 1 && data[0] >= 1 && data[0] <= 16) {
+                s << CScript::EncodeOP_N(data[0]);
+                break;
+            }
+            if (data.size() == 1 && data[0] == 0x81) {
+                s << OP_1NEGATE;
                 break;
             }
             // fall-through
